@@ -9,6 +9,12 @@ CLAIMS = {
          "spec_parse / field table are the trusted reference; IPv6 trailing bytes are deliberately free (mayErr); Frame.Payload extent beyond the start offset not demanded"),
  "C03": ("every encoder (Ethernet, IPv4, IPv6, UDP, ARP, ICMP echo) has a contract stating the wire layout of the bytes it writes, its exact modifies set (frame obligations per write) and the ErrPayloadTooBig clause; round-trip lemmas decode the encoder output through the library's getters and through the C02 field table; NS/NA marshal and DNS query round trips are lemmas over the real code",
          "DHCPv4 option-map encoding (Go map iteration) is not decided; preconditions state that source slices do not overlap the destination buffer; composition with Parse: see evidence"),
+ "C07": ("send paths under contract, each proved against the real body to hand exactly one complete, length-consistent frame to the connection with Ethernet source = host NIC MAC and the requested addresses/fields: ARP reply/request/announce, the purge probe (Session.arpRequest), ICMPv4 echo (IPv4 header checksum and ICMP checksum clauses over the C15 spec), ICMPv6 echo, NDP NS/NA (hop limit 255 for link-local destinations), the NDP marshal functions, the DHCPv4 encoder, the IPv6 multicast constants; the ARP spoof loop's frames through a per-send predicate (vWireEach)",
+         "NOT decided: RA/RS (marshal emits no ICMPv6 header: observed, see DESIGN 11.2), sendDHCP4Packet and the dns_naming senders (mDNS/LLMNR/NBNS/SSDP), the ICMPv6 checksum value; histories: each send function is decided for all arguments, not the handlers' emission histories"),
+ "C08": ("no panic and a termination measure for every loop: Parse (through C01), the lemmas stating what Parse establishes per payload class, and on exactly those predicates arp_spoofer.ProcessPacket, icmp_spoofer Handler4/Handler6.ProcessPacket (incl. NDP option parsing and router table update); payload-level decoders decodeName (recursion measure), DecodeQuestion, decodeRRs, DecodeAnswers, newParseOptions, hop-by-hop headers, DHCP4.ParseOptions, LLDP TLVs for arbitrary byte strings",
+         "NOT covered: dhcp4_spoofer.ProcessPacket beyond its gate and the dns_naming processors (their loops are driven by x/net dnsmessage.Parser, for which no typestate contract was written); wall-clock bounds are not a contract notion: termination = a decreasing measure per loop and recursion"),
+ "C13": ("ProcessPacket: at most one frame, a reply, forged only for a hunt-list sender asking for the router; StartHunt rejects/idempotent/frames other entries, StopHunt removes; spoofLoop: every forged frame goes to a MAC in the hunt list at the moment of the send, the corrective request with the router's real MAC is sent when the target is no longer hunted, nothing is sent after Close",
+         "sequential semantics only: 'within one cycle', interleavings of StartHunt/StopHunt with the running goroutine and real time are schedule properties no contract here can state (mutexes are no-ops, go statements are not executed); probe-reject conditions are covered only as 'a reply to the requester'"),
  "C15": ("Checksum(b) == byte-swapped RFC 1071 checksum for every b up to 65535 bytes: loop invariant against a recursive little-endian word sum, byte-order independence by an inductive ghost-loop lemma over one's-complement addition lemmas (each discharged by bit-blasting)",
          "inputs longer than 65535 bytes excluded (uint32 accumulator); recursive spec functions assumed terminating; header/ICMP sums-to-zero lemmas: see evidence"),
  "C20": ("fastlog appenders: in-bounds under their stated room precondition, exact index arithmetic, rendered bytes for MAC / hex / bool / string fields equal the reference renderer; ByteArray, StringArray, IPArray proved panic-free and in-buffer for ANY value length; appendIP6 in-bounds for all addresses",
